@@ -53,12 +53,12 @@ def random_mapping(rng, n=None):
 
 def gen_case(rng):
     kind = rng.choice(["rpdo", "tpdo"])
-    number = rng.choice([1, 2, 3, 4, 5, 64, 511, 512])
+    number = rng.choice([1, 2, 3, 4, 5, 64, 256, 257, 300, 511, 512])
     cob = rng.choice([rng.randint(1, 0x7FF), rng.randint(0x181, 0x57F), rng.randint(0x800, 0x1FFFFFFF), 0x7FF, 0x1FFFFFFF, 1])
     trans = rng.choice([0, 1, 240, 241, 252, 253, 254, 255, rng.randint(0, 255)])
     subs = [1, 2] + [s for s in (3, 5, 6) if rng.random() < 0.6]
     c = {"kind": kind, "number": number, "cob": cob, "enabled": rng.random() < 0.6, "rtr": rng.random() < 0.5, "trans": trans,
-         "subs": subs, "mapping": random_mapping(rng), "source": rng.choice(["programmatic", "programmatic", "device", "od"]),
+         "subs": subs, "mapping": random_mapping(rng), "source": rng.choice(["programmatic", "programmatic", "device", "od", "load_configuration"]),
          "inhibit": rng.choice([None, 0, 100, 65535]) if 3 in subs else None,
          "event": rng.choice([None, 0, 500, 65535]) if 5 in subs else None,
          "sync_start": rng.choice([None, 0, 7, 240]) if 6 in subs else None,
@@ -99,7 +99,7 @@ def run_case(ctx, c):
     bus = simbus.SimBus(mode="inline")
     net, st = simbus.make_network(bus, "master")
     net2, st2 = simbus.make_network(bus, "second")
-    od, com, mp = build_od(c, with_values=c["source"] == "od")
+    od, com, mp = build_od(c, with_values=c["source"] in ("od", "load_configuration"))
     node = canopen.RemoteNode(NODE, od)
     net.add_node(node)
     node.sdo.RESPONSE_TIMEOUT = 0.05
@@ -125,10 +125,14 @@ def run_case(ctx, c):
             pmap.inhibit_time, pmap.event_timer, pmap.sync_start_value = c["inhibit"], c["event"], c["sync_start"]
         elif c["source"] == "device":
             pmap.read()
-        else:
+        elif c["source"] == "od":
             pmap.read(from_od=True)
         nlog = len(dev.write_log)
-        pmap.save()
+        if c["source"] == "load_configuration":
+            # the documented way to apply a DCF: PDO objects go through read(from_od=True) + save(), nothing else may touch them
+            node.load_configuration()
+        else:
+            pmap.save()
     except Exception as exc:  # noqa: BLE001
         ctx.violation(f"save-raised:{type(exc).__name__}:{c['source']}", f"configuring/saving raised {type(exc).__name__}: {exc}; device log {dev.write_log[-6:]}", c, trace())
         bus.close()
